@@ -1,11 +1,11 @@
 SPECIFICATION Spec
 CONSTANTS
-  Keys <- WK
+  Keys <- WK2
   Vals <- WV
   MaxBatch = 4
-  M1s <- M1All
-  Variants = TRUE
-  Prefix <- NoPrefix
-VIEW genview
+  M1s <- M1Two
+  Variants = FALSE
+  Prefix <- TouchOther
+VIEW histview
 INVARIANTS EmitInv
 CHECK_DEADLOCK FALSE
